@@ -293,6 +293,63 @@ func checkCoercionErrors(r *Run, prog *Program, a *Anchors, pfx string) {
 	}
 }
 
+// checkElementTransparency: list elements are looked at through every level of pointer and interface before a
+// comparator is chosen: where the equality table is consulted for an element of the list, the element's kind can be
+// neither Ptr nor Interface (so "no comparator" errors are raised only for genuinely non-scalar elements).
+func checkElementTransparency(r *Run, prog *Program, a *Anchors, pfx string) {
+	ke := &kindEnv{prog: prog}
+	n := 0
+	for _, m := range a.Matchers {
+		ps := NewPathSim(prog)
+		ps.Inline = func(c *ssa.Function) bool { return isPureReflectHelper(prog, c) }
+		bad := map[ssa.Instruction]string{}
+		seen := map[ssa.Instruction]bool{}
+		ps.OnEvent = func(st *pstate, ev *Event) {
+			if ev.Instr == nil || ev.Callee != a.EqTable || len(ev.Args) != 1 || ev.Args[0].K != sKind {
+				return
+			}
+			x := ev.Args[0].A
+			// is x (derived from) an element of a reflected list?
+			elem := false
+			for y, d := x, 0; y != nil && d < 8; d++ {
+				if fn, _ := calleeOfSym(y); isReflectMethod(fn, "Index") {
+					elem = true
+					break
+				}
+				fn, _ := calleeOfSym(y)
+				if fn == nil {
+					break
+				}
+				as := symArgs(st, y)
+				if len(as) == 0 {
+					break
+				}
+				y = as[0]
+			}
+			if !elem {
+				return
+			}
+			ins := ev.Instr.(ssa.Instruction)
+			seen[ins] = true
+			if k := ke.kinds(st, x); k&ks(kPtr, kInterface) != 0 {
+				bad[ins] = fmt.Sprintf("the element handed to the equality table may still be of kind %s: pointers and interfaces must be looked through at every level first", k&ks(kPtr, kInterface))
+			}
+		}
+		ps.Run(m)
+		for ins := range seen {
+			n++
+			why, isBad := bad[ins]
+			r.Check(pfx+".element-transparency", m.Name()+":equality-table-for-element", prog.pos(ins.Pos()), !isBad, why)
+		}
+	}
+	r.Check(pfx+".element-transparency", "sites", "", n >= 1, fmt.Sprintf("info: %d element comparisons examined", n))
+}
+
+func int64Failed(sm *Summary, i64 *Event) bool {
+	eq, known := evalEq(sm.St, &Sym{K: sRes, A: i64.Res, Idx: 1}, nilSym())
+	return known && !eq
+}
+
 func countPrefix(xs []string, p string) int {
 	n := 0
 	for _, x := range xs {
@@ -376,6 +433,9 @@ func checkJSONNumber(r *Run, prog *Program, a *Anchors, pfx string) {
 		} else if i64 != nil && f64 != nil {
 			seen["json-neither"]++
 			r.Check(pfx+".json-number", "json-neither", pos, errClass(sm, sm.Results[1]) == "nonnil", "a json.Number that is neither an int64 nor a float64 must be an error")
+		} else if i64 != nil && f64 == nil && int64Failed(sm, i64) {
+			// gave up after Int64 alone
+			r.Check(pfx+".json-number", "float-not-tried", pos, false, "a json.Number that is not an int64 is rejected without trying float64 (integers beyond the int64 range must still compare as floats)")
 		}
 	}
 	for _, cls := range []string{"json-int", "json-float", "json-neither"} {
@@ -392,6 +452,7 @@ func init() {
 		checkEqualityTables(r, prog, a, "c02")
 		checkCoercionErrors(r, prog, a, "c02")
 		checkJSONNumber(r, prog, a, "c02")
+		checkElementTransparency(r, prog, a, "c02")
 		r.Technique = "sibling-table extraction by abstract execution per reflect.Kind (kind→coercion, kind→comparator) compared with a spec table transcribed from the statement; constant-argument and single-call checks on the strconv wrappers; conversion census (no integer/float detour); path analysis of coercion-error propagation; event-order analysis of the json.Number narrowing"
 		r.Explain = "For each of the 27 kinds: scalars have a comparator whose asserted type is the coercion's result type and whose accessor is the one of that group (Int/int64, Uint/uint64, Float/float64, float32(Float())/float32, Bool/bool, String/string), non-scalars have none and equality against them returns an error; each coercion is exactly one strconv call with base 0/64 bits (ints), the field's width (floats) or ParseBool, applied to the literal's Raw text unmodified, returning strconv's error unchanged; no conversion between integer and floating types on either side; a failed coercion makes the matcher return (false, error) except the one named ErrSyntax skip for heterogeneous interface slices; json.Number narrows to int64 then float64 before the dispatch; matchers receive Indirect(ValueOf(value)). NOT decided: strconv's own arithmetic; pointer depth > 1 (Indirect is single-level)."
 		r.Assume = append(r.Assume, "strconv.ParseInt/ParseUint/ParseFloat/ParseBool implement Go literal syntax exactly")
